@@ -185,9 +185,25 @@ pub fn abs_greedy_k0<T: Borrow<[u8]>, R: Reader<T>>(reader: &mut R) -> Vec<Resul
 /// harnesses that use the stubs call this first so that everything the stubs
 /// use is also reachable from the harness itself.
 pub fn touch() {
+    touch_md5(false);
     let mut tv: Vec<Result<AVP, DecodeError>> = Vec::new();
     tv.push(abs_value(0, AbsKind::OkOther));
     tv.push(abs_value(1, AbsKind::Err));
     tv.push(abs_value(2, AbsKind::OkMessageType));
     std::mem::forget(tv);
+}
+
+/// Instantiations of the md5 stub for the argument types a refactored caller
+/// might pass (`md5::compute` is generic over `AsRef<[u8]>`): statically
+/// reachable, never executed.
+fn touch_md5(run: bool) {
+    if run {
+        let v: Vec<u8> = Vec::new();
+        let _ = stub_md5_compute(&v);
+        let _ = stub_md5_compute(&v[..]);
+        let _ = stub_md5_compute(&mut v.clone());
+        let _ = stub_md5_compute([0u8; 4]);
+        let _ = stub_md5_compute(&[0u8; 4]);
+        let _ = stub_md5_compute(v);
+    }
 }
